@@ -24,7 +24,7 @@ def vertex_index(prog, t):
 
 def run(ctx, rep):
     prog = ctx.program("default")
-    rep.configs.append("default")
+    rep.configs.append(getattr(ctx, "alias", "default"))
     triangle_edges(prog, rep)
     polyline_points(prog, rep)
 
